@@ -4357,6 +4357,10 @@ where
 
     walk_type_groupname_entry(self, entry)?;
     self.state.type_group_name_entry = None;
+    // Key-domain candidates are only relayed from a member-key visit to its
+    // group entry. A keyless entry such as `* tstr` inside a map has no
+    // consumer for them: do not leak them into the next group entry.
+    self.map_entry_candidates = None;
 
     Ok(())
   }
